@@ -56,7 +56,7 @@ def r1_one_code_object(ctx):
     n = 0
     for m, st, w, key in cache_stores(ctx, multi, tables=(DICT, "errors")):
         rv = recv_name(m)
-        params = [p for p in m.params if p != rv]
+        params = [p for p in m.params if p != rv][:1]
         if "prefixed" not in key_shapes(m.node, key, params):
             continue
         ctx.touch(m)
@@ -202,7 +202,7 @@ def errors_consulted(ctx):
         "resolve files the ambiguity of a lower rank under the continuation key in `errors`, but the continuation branch never looks there: call_next into a tied rank reports 'No method' instead of the ambiguity",
     )
     # (i') ... and so is the table itself: resolving the bare key may just have stored this very continuation
-    params = [p for p in miss.params if p != rv]
+    params = [p for p in miss.params if p != rv][:1]
     reread = [
         s
         for s in inside
